@@ -1,4 +1,5 @@
 import L21.Props.C14
+import L21.Props.C14Lib
 import L21.Props.C14RT
 #print axioms L21.RawProto.c14_rect_roundtrip
 #print axioms L21.RawProto.c14_rect_second_trip
@@ -14,3 +15,5 @@ import L21.Props.C14RT
 #print axioms L21.RawProto.c14_elements_roundtrip
 #print axioms L21.RawProto.c14_layout_roundtrip
 #print axioms L21.RawProto.c14_proto_layout_roundtrip
+#print axioms L21.RawProto.c14_library
+#print axioms L21.RawProto.c14_abstract
